@@ -16,7 +16,7 @@ RULE = ("lattice start<=stop in -2..6 (integers, incl. stop=0) x dt in {1,.5,.25
 ASSUMPTIONS = ["run specs are integers set through run_specs/configure as the scenario loader does (Model(starttime=..) stores floats, which range() rejects: API precondition, not judged)",
                "for a population change made inside act() the statement is read as: every agent alive before and after the step acts exactly once, in creation order; agents deleted or created inside the step may act at most once",
                "time is compared with round+step*dt up to 1e-9"]
-REQUIRED = {"second_runs": 20, "session_calls": 20, "steps_observed": 2000, "acts_observed": 2000, "collects_observed": 1000, "steps_with_population_change_inside_act": 50}
+REQUIRED = {"second_runs": 20, "session_calls": 15, "steps_observed": 2000, "acts_observed": 2000, "collects_observed": 1000, "steps_with_population_change_inside_act": 50}
 BUDGET_S = {"quick": 100, "thorough": 900}
 DTS = ["1", "0.5", "0.25", "0.2", "0.1"]
 RECIP = [3, 7, 93, 105, 49, 186, 99, 117, 123, 198, 210, 211, 6, 9, 12, 100, 1000]
@@ -60,7 +60,7 @@ def gen_cases(tier, seed):
     # externally driven through a bptk session over TWO abm managers that own a scenario of the same name: one step per call and model
     for (s_, e_) in ((0, 3), (1, 4)):
         for dt in ("1", "0.5"):
-            for n_agents in (1, 3):
+            for n_agents in (1, 2, 3):
                 cases.append(dict(start=s_, stop=e_, dt=dt, collect=True, driver="session", n_agents=n_agents, script={"begin": {}, "end": {}}, changes=False, nscen=1,
                                   calls=rng.randint(2, 4)))      # never more calls than the session has steps (start..stop)
     # dt = 1/n for n that are not exact in binary (1/dt computed in floating point may fall just below n): all three drivers
